@@ -68,7 +68,11 @@ func vPlan(K int, kp *vPool, ops []int) []*vPlanned {
 			nxt.del(o.ki)
 			o.after = nxt
 		case vOpBatch:
-			n := 1 + verifChoice("bops", 2)
+			bmax := verifParam("bmax")
+			if bmax == 0 {
+				bmax = 2
+			}
+			n := 1 + verifChoice("bops", bmax)
 			for i := 0; i < n; i++ {
 				ki := verifChoice("bki", len(kp.keys))
 				del := verifChoice("bop", 2) == 1
@@ -91,9 +95,27 @@ func vPlan(K int, kp *vPool, ops []int) []*vPlanned {
 	return plan
 }
 
-// vExec executes one planned op.
-func vExec(db *DB, kp *vPool, o *vPlanned, id string) {
+// vExec executes one planned op; returns the (possibly reopened) database.
+func vExec(db *DB, opts Options, kp *vPool, o *vPlanned, id string) *DB {
 	switch o.kind {
+	case vOpMerge:
+		if verifParam("permute") == 1 {
+			verifPermuteMaps(true)
+		}
+		merr := db.Merge()
+		verifPermuteMaps(false)
+		if merr == nil {
+			verifReach("merge-finished")
+		}
+	case vOpRestart:
+		verifAssert(db.Close() == nil, id+".close-err")
+		ndb, err := Open(opts)
+		if err != nil {
+			verifNote("restart-err", err)
+		}
+		verifAssert(err == nil, id+".restart-err")
+		db = ndb
+		verifReach("restarted")
 	case vOpPut:
 		verifAssert(db.Put(kp.keys[o.ki], o.v) == nil, id+".put-err")
 	case vOpDelete:
@@ -111,39 +133,86 @@ func vExec(db *DB, kp *vPool, o *vPlanned, id string) {
 		}
 		verifAssert(b.Commit() == nil, id+".commit-err")
 		verifReach("batch")
+		if len(db.olderFiles) > 0 {
+			verifReach("batch-with-rotation")
+		}
+		// once Commit has returned the whole batch is visible live
+		d := vDump(db, kp)
+		verifAssert(vMatches(d, o.after), id+".batch-not-visible-after-commit")
 	}
+	return db
 }
 
-// verifHarnessC03: K mutations under a crash armed before every file-system operation; process death or power
-// loss (every unsynced tail cut to a solver-chosen length); recovery must succeed and expose M_j with
-// j >= the last mutation that was durable (power loss) or >= the last acknowledged one (process death).
-func verifHarnessC03() {
+func vPropID() string {
+	switch verifParam("prop") {
+	case 4:
+		return "C04"
+	case 7:
+		return "C07"
+	}
+	return "C03"
+}
+
+// verifHarnessCrash (C03, C04, C07): a planned history runs with a crash armed before every file-system
+// operation (including those of Merge and of the adoption inside a restart's Open); process death or power loss
+// (every unsynced tail cut to a solver-chosen length); optionally a second crash during the recovering Open.
+// The final recovery must succeed and expose the state after op j, with j >= the last mutation that was
+// durable (power loss) or the last acknowledged one (process death), and j <= the one in flight.
+func verifHarnessCrash() {
+	id := vPropID()
 	K := verifParam("k")
 	kp := verifKeyPool(verifParam("pool"), verifParam("klen"))
 	opts := verifOptions(verifDir("db"), "")
 	ops := vOpsFromMask(verifParam("ops"))
-	plan := vPlan(K, kp, ops)
+	var plan []*vPlanned
+	if pre := verifParam("preput"); pre > 0 {
+		plan = vPlan(pre, kp, []int{vOpPut})
+	}
+	body := vPlan(K, kp, ops)
+	// the model sequence of the body continues from the pre-puts
+	if len(plan) > 0 {
+		base := plan[len(plan)-1].after
+		for _, o := range body {
+			if o.after != nil {
+				m := base.clone()
+				vReplayOnto(m, o)
+				o.after = m
+				base = m
+			}
+		}
+	}
+	plan = append(plan, body...)
+	if tail := verifParam("tailops"); tail != 0 {
+		// fixed suffix, e.g. Merge then Restart (adoption) for C07
+		for _, k := range vOpsFromMask(tail) {
+			plan = append(plan, &vPlanned{kind: k})
+		}
+	}
 	wantPowerLoss := verifParam("powerloss") == 1 && verifChoice("mode", 2) == 1
 	// ---- phase 1 (engine only): run the plan until the crash ----
 	done, started, jmin := 0, 0, 0
 	if !verifNative() {
 		db, err := Open(opts)
-		verifAssert(err == nil, "C03.open-err")
+		verifAssert(err == nil, id+".open-err")
 		crashed := verifCrashable(func() {
 			verifCrashArm(true)
 			for i, o := range plan {
 				verifSetTag("op" + strconv.Itoa(i))
 				started = i + 1
-				vExec(db, kp, o, "C03")
+				db = vExec(db, opts, kp, o, id)
 				done = i + 1
 			}
 			verifCrashArm(false)
 		})
 		if crashed {
 			verifReach("crashed-mid-workload")
+			if started > 0 && plan[started-1].kind == vOpMerge {
+				verifReach("crashed-in-merge")
+			}
+			if started > 0 && plan[started-1].kind == vOpRestart {
+				verifReach("crashed-in-restart")
+			}
 		}
-		// durability floor: the last acknowledged mutation whose bytes were all synced (power loss),
-		// or the last acknowledged one (process death)
 		jmin = done
 		if wantPowerLoss {
 			jmin = 0
@@ -153,19 +222,44 @@ func verifHarnessC03() {
 					jmin = i + 1
 				}
 			}
+			// C04: a committed Sync batch must survive a power failure whatever was flushed
+			if verifParam("bsync") == 1 {
+				for i := 0; i < done; i++ {
+					if plan[i].kind == vOpBatch {
+						jmin = i + 1
+						verifReach("sync-batch-required-durable")
+					}
+				}
+			}
 			verifReach("power-loss")
 			if jmin < done {
 				verifReach("unsynced-acked")
 			}
 		}
 		verifCrashNow(wantPowerLoss)
+		if verifParam("crash2") == 1 {
+			// a second crash (process death) during the recovering Open, then the final recovery below
+			crashed2 := verifCrashable(func() {
+				verifCrashArm(true)
+				rdb, err := Open(opts)
+				if err != nil {
+					verifNote("recovery1-err", err)
+				}
+				verifAssert(err == nil, id+".first-recovery-open-err")
+				_ = rdb
+				verifCrashArm(false)
+			})
+			if crashed2 {
+				verifReach("crashed-during-recovery")
+			}
+			verifCrashNow(false)
+		}
 	}
 	done = verifCheckpointInt("done", done)
 	started = verifCheckpointInt("started", started)
 	jmin = verifCheckpointInt("jmin", jmin)
 	torn := verifCheckpointInt("torn", verifFSTornFiles())
 	// ---- phase 2 (engine and native replay): recover and compare ----
-	// candidate states: after op jmin..done (only ops that are mutations change the state), plus the in-flight one
 	empty := newVModel(len(kp.keys))
 	stateAfter := func(n int) *vModel {
 		st := empty
@@ -187,27 +281,28 @@ func verifHarnessC03() {
 	if torn > 0 {
 		verifReach("torn-tail")
 	}
-	verifAssert(err == nil, "C03.recovery-open-err")
+	verifAssert(err == nil, id+".recovery-open-err")
 	d := vDump(db2, kp)
 	for i := range d.errs {
-		verifAssert(d.errs[i] == nil, "C03.recovered-get-err")
+		verifAssert(d.errs[i] == nil, id+".recovered-get-err")
 	}
 	match := false
 	for _, m := range cands {
 		match = verifOr(match, vMatches(d, m))
 	}
-	verifAssert(match, "C03.not-a-prefix")
+	verifAssert(match, id+".not-a-prefix")
+	verifAssert(db2.Stat().KeyNum == len(db2.ListKeys()), id+".keynum-vs-listkeys")
 	if verifParam("after") == 1 {
-		// the recovered database keeps working: one more put, clean restart
+		// the recovered database keeps working: one more put, clean restart, same mapping
 		v := []byte{9}
-		verifAssert(db2.Put(kp.keys[0], v) == nil, "C03.put-after-recovery-err")
+		verifAssert(db2.Put(kp.keys[0], v) == nil, id+".put-after-recovery-err")
 		d1 := vDump(db2, kp)
-		verifAssert(db2.Close() == nil, "C03.close-after-recovery-err")
+		verifAssert(db2.Close() == nil, id+".close-after-recovery-err")
 		db3, err := Open(opts)
 		if err != nil {
 			verifNote("second-open-err", err)
 		}
-		verifAssert(err == nil, "C03.second-open-err")
+		verifAssert(err == nil, id+".second-open-err")
 		d2 := vDump(db3, kp)
 		same := true
 		for i := range d1.found {
@@ -217,10 +312,30 @@ func verifHarnessC03() {
 			}
 			same = verifAnd(same, verifBytesEq(d1.vals[i], d2.vals[i]))
 		}
-		verifAssert(same, "C03.recovered-state-not-stable")
+		verifAssert(same, id+".recovered-state-not-stable")
+		// a finished merge (non-empty marker) is adopted by a completed Open: none may be left
+		verifAssert(verifFSLen(opts.DirPath+"-merge/000000000.merge-finished") <= 0, id+".finished-merge-not-adopted")
 	}
 	verifReach("done")
 	if verifParam("witness") == 1 {
 		verifAssert(false, "witness")
+	}
+}
+
+// vReplayOnto applies a planned op's effect to a model.
+func vReplayOnto(m *vModel, o *vPlanned) {
+	switch o.kind {
+	case vOpPut:
+		m.put(o.ki, o.v)
+	case vOpDelete:
+		m.del(o.ki)
+	case vOpBatch:
+		for i := range o.bkis {
+			if o.bdels[i] {
+				m.del(o.bkis[i])
+			} else {
+				m.put(o.bkis[i], o.bvs[i])
+			}
+		}
 	}
 }
